@@ -3,6 +3,7 @@ package rules
 import (
 	"go/token"
 	"go/types"
+	"strings"
 	"time"
 
 	"golang.org/x/tools/go/ssa"
@@ -47,6 +48,15 @@ func runC10(c *eng.Ctx, tier string) {
 		eng.InstrsTree(f, func(ff *ssa.Function, in ssa.Instruction) {
 			switch x := in.(type) {
 			case *ssa.Panic:
+				// (the unreachable arm go/ssa adds to a blocking select is not a panic of the program)
+				if s, isC := eng.ConstString(x.X); isC && strings.Contains(s, "blocking select matched no case") {
+					return
+				}
+				if mi, isMI := x.X.(*ssa.MakeInterface); isMI {
+					if s, isC := eng.ConstString(mi.X); isC && strings.Contains(s, "blocking select matched no case") {
+						return
+					}
+				}
 				bad = true
 				c.Bad("R-C10-7", ff, in.Pos(), "panic", "misconfiguration is reported as an error, never a panic", "explicit panic in the construction path")
 			case *ssa.TypeAssert:
@@ -315,6 +325,29 @@ func c10InitIn(c *eng.Ctx, init *ssa.Function, inner bool) {
 			}
 		}
 	})
+	// a wait written in place: a blocking select on ctx.Done() and time.After(d)
+	eng.Instrs(init, func(in ssa.Instruction) {
+		sel, ok := in.(*ssa.Select)
+		if !ok || !sel.Blocking {
+			return
+		}
+		hasDone := false
+		var after *ssa.Call
+		for _, st := range sel.States {
+			if call, _ := eng.TupleCall(st.Chan); call != nil {
+				if call.Call.IsInvoke() && call.Call.Method.Name() == "Done" {
+					hasDone = true
+				}
+				if eng.CalleeIs(&call.Call, "time", "After") {
+					after = call
+				}
+			}
+		}
+		if hasDone && after != nil && len(sel.States) == 2 {
+			waits = append(waits, after)
+			waitDur[after] = after.Call.Args[0]
+		}
+	})
 	if len(fetches) == 0 {
 		c.Undecided("R-C10-2", init, init.Pos(), "fetch in the initialisation routine", "no service request found")
 		return
@@ -475,9 +508,9 @@ func c10InitIn(c *eng.Ctx, init *ssa.Function, inner bool) {
 		}
 		okInst := false
 		if install != nil {
-			if al, isAl := eng.Origin(install.Value).(*ssa.Alloc); isAl && eng.Origin(install.Key) == loop.Key {
-				fields, _, _ := eng.LiteralFields(al)
-				if call, idx := eng.TupleCall(fields["Secret"]); call == fetch && idx == 0 {
+			// (the entry literal may be built by a constructor helper)
+			if fields, mapv, isLit := eng.LiteralThroughHelper(install.Value); isLit && eng.Origin(install.Key) == loop.Key {
+				if call, idx := eng.TupleCall(mapv(fields["Secret"])); call == fetch && idx == 0 {
 					okInst = true
 				}
 			}
